@@ -90,7 +90,7 @@ def probe(paths, ck, d, cfg='asan', usability=()):
             ti = x.call('C_GetTokenInfo', slot=sl)
             if ti['rv'] != 0: snap['tokens']['?slot%d' % len(snap['tokens'])] = {'tokeninfo': ti['rvname']}; continue
             if not (ti['flags'] & ck.CKF_TOKEN_INITIALIZED): continue
-            label = bytes.fromhex(ti['label']).rstrip(b' ').decode('latin-1'); t = {'tokeninfo': 'CKR_OK', 'user_pin_flag': bool(ti['flags'] & ck.CKF_USER_PIN_INITIALIZED), 'so': [], 'user': [], 'objects': {}}
+            label = bytes.fromhex(ti['label']).rstrip(b' ').decode('latin-1'); t = {'tokeninfo': 'CKR_OK', 'flags': ti['flags'], 'user_pin_flag': bool(ti['flags'] & ck.CKF_USER_PIN_INITIALIZED), 'so': [], 'user': [], 'objects': {}}      # (the flags are read BEFORE the probe's own login attempts, which rewrite them)
             s = x.call('C_OpenSession', slot=sl)
             if s['rv'] != 0: t['open'] = s['rvname']; snap['tokens'][label] = t; continue
             s = s['h']
@@ -208,6 +208,9 @@ def judge(kind, S0, S1, R, part, cp, witness):
     # CKF_USER_PIN_INITIALIZED must tell the truth about whether a user PIN logs in
     if A.get('user_pin_flag') is not None and bool(A['user']) != bool(A['user_pin_flag']) and 'user-pin-lost' not in out:
         out.append('user-pin-flag-disagrees-with-working-pin(flag=%s)' % A['user_pin_flag'])
+    # the token flags (PIN-count-low / final-try / locked / PIN-initialised ...) as a new process reads them: the value before the call or the value after the completed call
+    if A.get('flags') is not None and A1 is not None and A['flags'] not in (A0.get('flags'), A1.get('flags')) and tl != 'reinit' and not any(o.startswith(('user-pin-lost', 'so-pin-lost', 'user-pin-flag')) for o in out):
+        diff = (A['flags'] ^ A0.get('flags', 0)); out.append('token-flags-neither-old-nor-new(bits 0x%x)' % diff)
     U = A.get('usability') or {}
     for k2, v in U.items():
         vals = v if isinstance(v, list) else [v]
@@ -259,7 +262,7 @@ def run(ctx):
     for backend in backends:
         for big in ((False,) if ctx.quick else (False, True)):
             tdir = ctx.dir(f'template-{backend}-{int(big)}'); make_template(ctx.paths, ck, tdir, backend, big)
-            S0 = probe(ctx.paths, ck, tdir)
+            d00 = ctx.dir('s0'); shutil.rmtree(d00); shutil.copytree(tdir, d00); mkconf(d00, backend); S0 = probe(ctx.paths, ck, d00)      # on a copy: the probe's own wrong-PIN logins leave PIN-count flags behind
             for f in os.listdir(tdir):
                 if f.startswith(('stderr', 'trace')): os.unlink(os.path.join(tdir, f))
             if 'tokA' not in S0['tokens'] or len(S0['tokens']['tokA']['objects']) != 5: raise AssertionError('template probe unexpected: %r' % S0)
